@@ -48,11 +48,16 @@ fn main() {
             let o = std::fs::File::create(&args[3]).expect("create output");
             let mut w = BufWriter::new(o);
             let mut st = proto::State::new();
+            // after a crash the driver re-runs with PGH_FLUSH=1 to see how far execution got
+            let flush_each = std::env::var("PGH_FLUSH").is_ok();
             for line in std::io::BufReader::new(f).lines() {
                 let line = line.unwrap();
                 let ans = st.step_safe(&line);
                 w.write_all(ans.as_bytes()).unwrap();
                 w.write_all(b"\n").unwrap();
+                if flush_each {
+                    w.flush().unwrap();
+                }
             }
             w.flush().unwrap();
         }
@@ -62,6 +67,9 @@ fn main() {
                 Some(rep) => println!("{}", rep.to_json(&args[2])),
                 None => println!("{{\"property\":\"{}\",\"checks\":0,\"nontrivial\":0,\"failures\":[],\"stats\":{{}},\"samples\":[],\"none\":true}}", args[2]),
             }
+        }
+        "dropprobe" if args.len() == 3 => {
+            oracles::drop_probe(args[2].parse().unwrap_or(0));
         }
         "c14hashes" if args.len() == 4 => {
             let seed: u64 = args[3].parse().unwrap_or(0);
